@@ -1,0 +1,201 @@
+//go:build verif
+
+/*
+SPDX-License-Identifier: Apache-2.0
+*/
+
+package issuecredential
+
+import (
+	"github.com/hyperledger/aries-framework-go/pkg/didcomm/common/service"
+)
+
+// VerifTarget is one row of the message type -> state map (nextState).
+type VerifTarget struct {
+	Msg      string
+	V3       bool
+	Outbound bool
+	State    string
+	Err      bool
+}
+
+// VerifExec is one row of the follow-up table: what Execute{In,Out}bound of a state returns.
+type VerifExec struct {
+	State   string
+	V3      bool
+	Inbound bool
+	Opt     string
+	Flag    bool
+	Next    string
+	Err     bool
+}
+
+// VerifTables is the protocol's state machine as the code defines it, obtained by executing it.
+type VerifTables struct {
+	States  []string
+	Can     [][2]string
+	Targets []VerifTarget
+	Actions []VerifTarget
+	Exec    []VerifExec
+}
+
+// VerifMsgTypes maps a short message name to the (V2, V3) message types.
+func VerifMsgTypes() map[string][2]string {
+	return map[string][2]string{
+		"propose":        {ProposeCredentialMsgTypeV2, ProposeCredentialMsgTypeV3},
+		"offer":          {OfferCredentialMsgTypeV2, OfferCredentialMsgTypeV3},
+		"request":        {RequestCredentialMsgTypeV2, RequestCredentialMsgTypeV3},
+		"issue":          {IssueCredentialMsgTypeV2, IssueCredentialMsgTypeV3},
+		"ack":            {AckMsgTypeV2, AckMsgTypeV3},
+		"problem-report": {ProblemReportMsgTypeV2, ProblemReportMsgTypeV3},
+	}
+}
+
+func verifMsg(t string, v3 bool) service.DIDCommMsgMap {
+	if v3 {
+		return service.DIDCommMsgMap{"id": "verif-id", "type": t, "body": map[string]interface{}{}}
+	}
+
+	return service.DIDCommMsgMap{"@id": "verif-id", "@type": t}
+}
+
+// VerifOpts are the option kinds the follow-up table is enumerated over.
+func VerifOpts() []string { return []string{"none", "propose", "offer", "request", "issue"} }
+
+func verifApplyOpt(md *MetaData, opt string, v3 bool) {
+	switch opt {
+	case "propose":
+		if v3 {
+			md.proposeCredentialV3 = &ProposeCredentialV3{}
+		} else {
+			md.proposeCredentialV2 = &ProposeCredentialV2{}
+		}
+	case "offer":
+		if v3 {
+			md.offerCredentialV3 = &OfferCredentialV3{}
+		} else {
+			md.offerCredentialV2 = &OfferCredentialV2{}
+		}
+	case "request":
+		if v3 {
+			md.requestCredentialV3 = &RequestCredentialV3{}
+		} else {
+			md.requestCredentialV2 = &RequestCredentialV2{}
+		}
+	case "issue":
+		if v3 {
+			md.issueCredentialV3 = &IssueCredentialV3{}
+		} else {
+			md.issueCredentialV2 = &IssueCredentialV2{}
+		}
+	}
+}
+
+// VerifGraph enumerates the state machine by calling the package's own functions.
+func VerifGraph() *VerifTables {
+	names := []string{
+		stateNameStart, stateNameAbandoning, stateNameDone,
+		stateNameProposalReceived, stateNameOfferSent, stateNameRequestReceived, stateNameCredentialIssued,
+		stateNameProposalSent, stateNameOfferReceived, stateNameRequestSent, stateNameCredentialReceived,
+	}
+	t := &VerifTables{States: names}
+	all := append([]string{}, names...)
+	all = append(all, stateNameNoop)
+
+	for _, v := range []string{SpecV2, SpecV3} {
+		for _, a := range all {
+			for _, b := range all {
+				if stateFromName(a, v).CanTransitionTo(stateFromName(b, v)) {
+					e := [2]string{a, b}
+					dup := false
+
+					for _, x := range t.Can {
+						dup = dup || x == e
+					}
+
+					if !dup {
+						t.Can = append(t.Can, e)
+					}
+				}
+			}
+		}
+	}
+
+	short := []string{"propose", "offer", "request", "issue", "ack", "problem-report"}
+	types := VerifMsgTypes()
+
+	for _, m := range short {
+		for vi, v3 := range []bool{false, true} {
+			msg := verifMsg(types[m][vi], v3)
+
+			for _, out := range []bool{false, true} {
+				st, err := nextState(msg, out)
+				row := VerifTarget{Msg: m, V3: v3, Outbound: out, Err: err != nil}
+
+				if err == nil {
+					row.State = st.Name()
+				}
+
+				t.Targets = append(t.Targets, row)
+			}
+
+			if canTriggerActionEvents(msg) {
+				t.Actions = append(t.Actions, VerifTarget{Msg: m, V3: v3})
+			}
+		}
+	}
+
+	for _, name := range names {
+		for vi, v3 := range []bool{false, true} {
+			v := []string{SpecV2, SpecV3}[vi]
+
+			for _, inbound := range []bool{true, false} {
+				for _, opt := range VerifOpts() {
+					md := &MetaData{inbound: inbound}
+					md.Msg = verifMsg(types["offer"][vi], v3)
+					md.msgClone = md.Msg
+					md.IsV3 = v3
+					verifApplyOpt(md, opt, v3)
+
+					st := stateFromName(name, v)
+					if ab, ok := st.(*abandoning); ok {
+						ab.Code = codeInternalError
+					}
+
+					var (
+						next state
+						err  error
+					)
+
+					if inbound {
+						next, _, err = st.ExecuteInbound(md)
+					} else {
+						next, _, err = st.ExecuteOutbound(md)
+					}
+
+					// the follow-up does not depend on any flag of the message in this protocol
+					for _, flag := range []bool{false, true} {
+						row := VerifExec{State: name, V3: v3, Inbound: inbound, Opt: opt, Flag: flag, Err: err != nil}
+						if err == nil {
+							row.Next = next.Name()
+						}
+
+						t.Exec = append(t.Exec, row)
+					}
+				}
+			}
+		}
+	}
+
+	return t
+}
+
+// VerifBarrier returns once the listener has finished every callback handed to it before
+// (the callbacks channel is unbuffered: the listener only receives when it is idle).
+func (s *Service) VerifBarrier() {
+	md := &MetaData{state: &noOp{}}
+	md.PIID = "verif-barrier"
+	md.Msg = verifMsg(AckMsgTypeV2, false)
+	md.msgClone = md.Msg
+	s.callbacks <- md
+}
